@@ -50,6 +50,11 @@ def main():
     out = {"property": prop, "generated_by": "tools/curate.py", "stats": dict(stats), "excluded_known_defect_duplicates": excluded, "cases": kept}
     os.makedirs('/verif/corpus', exist_ok=True)
     json.dump(out, open(f'/verif/corpus/{prop}.json', 'w'), indent=0)
+    seen = set(); uniq = []
+    for f in findings:
+        if f["key"] not in seen:
+            seen.add(f["key"]); uniq.append(f)
+    findings = uniq
     kf = json.load(open(report.KNOWN_PATH))
     kf["findings"] = [e for e in kf["findings"] if e.get("property") != prop or e.get("manual")] + findings
     json.dump(kf, open(report.KNOWN_PATH, 'w'), indent=1)
